@@ -167,7 +167,9 @@ pub fn ior_handler(a: &[&str]) -> String {
     let has_err = toks.iter().any(|t| *t == "E");
     let sched: VecDeque<RTok> = toks.iter().map(|t| match *t { "I" => RTok::Intr, "E" => RTok::Err, k => RTok::Data(k.parse().unwrap()) }).collect();
     let budget = sched.len();
-    let mut reader = Reader::new(ScriptedRead { data: c.data.clone(), pos: 0, sched, calls: 0, budget });
+    // every third case goes through the with_buffer constructor (an empty buffer with spare capacity: the model starts from an empty buffer)
+    let src = ScriptedRead { data: c.data.clone(), pos: 0, sched, calls: 0, budget };
+    let mut reader = if c.data.len() % 3 == 1 { Reader::with_buffer(src, Vec::with_capacity(16)) } else { Reader::new(src) };
     reader.set_max_len(c.max);
     let mut outs: Vec<String> = Vec::new();
     let limit = c.data.len() + 2;
@@ -242,7 +244,8 @@ pub fn iow_handler(a: &[&str]) -> String {
     let max: u32 = kv(a, "max").parse().unwrap();
     let vals: Vec<Val> = items(kv(a, "vals")).iter().map(|s| val_of_item(s)).collect();
     let sk: Vec<char> = match kv(a, "sink") { "-" => Vec::new(), s => s.chars().collect() };
-    let mut writer = Writer::new(RecSink { writes: Vec::new(), fail: false });
+    let snk = RecSink { writes: Vec::new(), fail: false };
+    let mut writer = if vals.len() % 3 == 1 { Writer::with_buffer(snk, Vec::with_capacity(16)) } else { Writer::new(snk) };
     writer.set_max_len(max);
     let mut rs: Vec<String> = Vec::new();
     let mut verdict: Result<(), String> = Ok(());
@@ -339,7 +342,8 @@ pub fn aior_handler(a: &[&str]) -> String {
     let waker = noop_waker();
     let mut cx = Context::from_waker(&waker);
     let budget = sched.len();
-    let mut reader = AsyncReader::new(ScriptedAsyncRead { data: c.data.clone(), pos: 0, sched, calls: 0, errs: 0, budget });
+    let src = ScriptedAsyncRead { data: c.data.clone(), pos: 0, sched, calls: 0, errs: 0, budget };
+    let mut reader = if c.data.len() % 3 == 1 { AsyncReader::with_buffer(src, Vec::with_capacity(16)) } else { AsyncReader::new(src) };
     reader.set_max_len(c.max);
     let mut outs: Vec<String> = Vec::new();
     let limit = 2 * (c.data.len() + items(kv(a, "src")).len()) + 4;
@@ -436,7 +440,8 @@ pub fn aiow_handler(a: &[&str]) -> String {
     let waker = noop_waker();
     let mut cx = Context::from_waker(&waker);
     let budget = sched.len() + 8 * vals.len();
-    let mut w = AsyncWriter::new(ScriptedAsyncWrite { writes: Vec::new(), sched, calls: 0, zeros: 0, budget });
+    let snk = ScriptedAsyncWrite { writes: Vec::new(), sched, calls: 0, zeros: 0, budget };
+    let mut w = if vals.len() % 3 == 1 { AsyncWriter::with_buffer(snk, Vec::with_capacity(16)) } else { AsyncWriter::new(snk) };
     w.set_max_len(max);
     let limit = 2 * toks.len() + 8;
     let mut evss: Vec<String> = Vec::new();
